@@ -18,6 +18,7 @@ import Golib.Proof.C05Exact
 import Golib.Proof.C06Mask
 import Golib.Proof.C06Count
 import Golib.Proof.C06Facts
+import Golib.Proof.C05Rebuild
 
 namespace Golib.C06
 open Golib Golib.C05
@@ -247,6 +248,23 @@ example : (Trie.ofPatterns [[97], [99], [97, 98, 99, 100, 101]]).bind
     (Trie.ofPatterns [[97], [99], [97, 98, 99, 100, 101]]).bind
       (fun t => replace t [97, 98, 99, 100, 101] [42]) = some [42] := by
   constructor <;> decide +kernel
+
+/-- Histories: on a trie that went through any number of rounds Insert…, BuildFailureLinks
+(`Built pats t`, see `c05_rebuild_eq_build`: every further round keeps it) `Replace` and
+`ReplaceWithMask` answer exactly as on the trie built in one go from all patterns inserted so
+far — so the theorems above hold after every rebuild. -/
+theorem c06_rebuild_eq_build (pats : List (List Nat)) (t : Trie) (hb : Built pats t) :
+    ∃ t0, Trie.ofPatterns pats = some t0 ∧
+      (∀ text repl, replace t text repl = replace t0 text repl) ∧
+      (∀ text mask, replaceWithMask t text mask = replaceWithMask t0 text mask) := by
+  obtain ⟨t0, h0, _, _, _, _, _, h6, h7⟩ := built_queries pats t hb
+  exact ⟨t0, h0, h6, h7⟩
+
+/-- abcd, xbcy built; bc, c inserted; built again: `ReplaceWithMask("abce", '*')` = `a**e`. -/
+example : ((Trie.ofPatterns [[97, 98, 99, 100], [120, 98, 99, 121]]).bind fun t1 =>
+      ([[98, 99], [99]].foldl (fun t p => t.insert (decodeAll p)) t1).rebuild).bind
+      (fun t2 => replaceWithMask t2 [97, 98, 99, 101] 42) = some [97, 42, 42, 101] := by
+  decide +kernel
 
 /-- The source expressions and statements of `algz/trie.go` the model is written against
 (re-extracted by go/ast on every run into `Golib/Gen/FactsC06.lean`) are the ones the model
